@@ -97,6 +97,11 @@ def reference_digest():
         s.add_comp("l", comp=C.PLoad("p", pwr=0.5))
         s.add_comp("s", comp=C.RLoss("r", rs=0.5))
         s.add_comp("r", comp=C.ILoad("i", ii=0.25))
+        # a branch whose values lie outside every limit window the generated files carry: should a loaded file's limits
+        # leak into the defaults, its components start to warn
+        s.add_source(C.Source("h", vo=60.0))
+        s.add_comp("h", comp=C.RLoss("rh", rs=1.0, rt=40.0))
+        s.add_comp("rh", comp=C.ILoad("ih", ii=2.0))
         return digest([df_rows(s.params(limits=True)), df_rows(s.limits()), table_wire(s.solve()),
                        digest(comp_pay(C.PSwitch("x"))), digest(comp_pay(C.Rectifier("y")))])
 
